@@ -311,8 +311,39 @@ func c11NewGoMod(root string) (*c11GoMod, error) {
 
 var c11GoErrRe = regexp.MustCompile(`^(?:\./)?gen/([^/]+)/`)
 
-// build type-checks everything under gen/ and returns tag -> first error lines.
+// build type-checks everything under gen/ and returns tag -> first error lines. A package that
+// does not even load (syntax error, invalid package name) makes `go build` stop before it
+// type-checks the others: the trees that failed are moved away and the rest is built again, until
+// a build is clean.
 func (m *c11GoMod) build() (map[string]string, error) {
+	all := map[string]string{}
+	for round := 0; round < 8; round++ {
+		res, err := m.buildOnce()
+		if err != nil {
+			return nil, err
+		}
+		if len(res) == 0 {
+			return all, nil
+		}
+		progressed := false
+		for tag, e := range res {
+			if _, seen := all[tag]; !seen {
+				all[tag] = e
+				progressed = true
+			}
+			away := filepath.Join(filepath.Dir(m.dir), "go-failed") // outside the module
+			os.MkdirAll(away, 0o755)
+			os.Rename(filepath.Join(m.dir, "gen", tag), filepath.Join(away, tag+"-"+strconv.Itoa(round)))
+		}
+		if !progressed {
+			break
+		}
+		StatN("go-build-rounds", 1)
+	}
+	return all, nil
+}
+
+func (m *c11GoMod) buildOnce() (map[string]string, error) {
 	ctx, cancel := context.WithTimeout(context.Background(), 20*time.Minute)
 	defer cancel()
 	cmd := exec.CommandContext(ctx, "go", "build", "-gcflags=-e", "./...")
@@ -650,11 +681,17 @@ type c11Job struct {
 	expect  string
 	problem string // first well-formedness problem ("" = fine)
 	feat    map[string]bool
+	probes  []c11Probe // naming probes in the program (totality_names.go)
 }
 
 // c11KnownClass: the failure of this run falls into a recorded known-finding class that is
 // specific to one target (the program has the feature AND the failure has the recorded shape).
 func c11KnownClass(j *c11Job) string {
+	for _, pr := range j.probes {
+		if id := c11ProbeKnown(pr, j.target.lang); id != "" {
+			return id
+		}
+	}
 	txt := j.run.out + " " + j.problem
 	switch {
 	case j.target.lang == "html" && j.feat["nonstring-map-key-value"] && strings.Contains(txt, "non-string type"):
@@ -891,7 +928,13 @@ func c11RunTasks(tasks []c11Task) {
 	wg.Wait()
 }
 
-func runC11(r *Rng, n int) {
+func runC11(r *Rng, n int) { c11RunSuite(r, n, false) }
+
+// runC11Names: the full naming matrix, every applicable (name, position) once (development and
+// thorough tier: `cc c11names`); -n is ignored.
+func runC11Names(r *Rng, n int) { c11RunSuite(r, len(c11AllProbes()), true) }
+
+func c11RunSuite(r *Rng, n int, namesOnly bool) {
 	if _, err := os.Stat(c11Frugal()); err != nil {
 		fmt.Fprintln(os.Stderr, "c11: compiler binary missing:", c11Frugal())
 		os.Exit(3)
@@ -907,6 +950,12 @@ func runC11(r *Rng, n int) {
 
 	c11KnownWitnesses(root)
 
+	// the cover runs in the first job of a run only (bin/check gives job k the seed seed*1000+k)
+	var cover [][]c11Probe
+	if !namesOnly && c11SeedArg()%1000 == 0 {
+		cover = c11Cover()
+		StatN("probe-cover-programs", len(cover))
+	}
 	cfg := c11GenCfg{maxFiles: 3, maxDecl: 7, maxFields: 6, maxChain: 12}
 	const batch = 24
 	for start := 0; start < n; start += batch {
@@ -929,7 +978,24 @@ func runC11(r *Rng, n int) {
 			} else {
 				cfg.maxChain = 12
 			}
-			p, ctxs := c11GenProg(r, cfg)
+			var p *c11GProg
+			var ctxs []*c11FileCtx
+			var probes []c11Probe
+			all := c11AllProbes()
+			switch {
+			case namesOnly:
+				probes = []c11Probe{all[i]}
+			case i < len(cover):
+				probes = cover[i] // every clean (name, position) combination, every run
+			case r.Chance(25):
+				probes = []c11Probe{all[r.Intn(len(all))]} // incl. the recorded failing ones
+			}
+			if probes != nil {
+				p = c11ProbeProgMulti(probes)
+				StatN("probe-combinations", len(probes))
+			} else {
+				p, ctxs = c11GenProg(r, cfg)
+			}
 			files, order := p.render()
 			dir := filepath.Join(broot, "idl", "p"+strconv.Itoa(i))
 			if err := c11WriteFiles(dir, files); err != nil {
@@ -952,7 +1018,7 @@ func runC11(r *Rng, n int) {
 						outDir = filepath.Join(gm.dir, "gen", tag)
 						goPrefix = c11ModName + "/gen/" + tag + "/"
 					}
-					j := &c11Job{prog: i, tag: tag, target: t, gen: c11GenArg(t, opts, goPrefix), outDir: outDir, bundle: bundle, expect: "valid", feat: p.feat}
+					j := &c11Job{prog: i, tag: tag, target: t, gen: c11GenArg(t, opts, goPrefix), outDir: outDir, bundle: bundle, expect: "valid", feat: p.feat, probes: probes}
 					jobs = append(jobs, j)
 					tasks = append(tasks, c11Task{j, dir, order[0]})
 					Stat("target:" + t.lang)
@@ -961,7 +1027,7 @@ func runC11(r *Rng, n int) {
 			}
 		}
 		// (B) invalid side
-		for i := start; i < end; i++ {
+		for i := start; i < end && !namesOnly; i++ {
 			base, _ := c11GenProg(r, c11GenCfg{maxFiles: 2, maxDecl: 4, maxFields: 4, maxChain: 4})
 			// one checked kind, one unchecked kind
 			kinds := []struct {
@@ -1025,11 +1091,39 @@ func runC11(r *Rng, n int) {
 			Stat("outcome:" + j.expect + ":" + j.run.class)
 			StatN("compile-ms", int(j.run.dur.Milliseconds()))
 			if what := c11Verdict(j); what != "" {
+				if len(j.probes) == 1 {
+					Stat("probefail|" + j.probes[0].pos + "|" + j.probes[0].name + "|" + j.target.lang + "|" + c11FailShape(j))
+				}
 				c11Report(j, what, nil)
+			} else if len(j.probes) == 1 && j.expect == "valid" && c11ProbeKnown(j.probes[0], j.target.lang) != "" {
+				Stat("probe-known-but-passes|" + j.probes[0].pos + "|" + j.probes[0].name + "|" + j.target.lang)
 			}
 		}
 		os.RemoveAll(broot)
 	}
+}
+
+var c11ShapeRe = regexp.MustCompile(`[A-Za-z_][A-Za-z0-9_]*|[0-9]+`)
+
+// c11FailShape: a short, name-independent shape of the failure (development statistics).
+func c11FailShape(j *c11Job) string {
+	msg := j.problem
+	if msg == "" {
+		msg = j.run.class + ": " + j.run.out
+	}
+	lines := strings.Split(msg, "\n")
+	first := lines[0]
+	if strings.HasPrefix(first, "go output does not type-check") && len(lines) > 0 {
+		first = strings.TrimPrefix(first, "go output does not type-check: ")
+		if i := strings.Index(first, ": "); i >= 0 {
+			first = "go: " + first[i+2:]
+		}
+	}
+	first = strings.Replace(first, "\t", " ", -1)
+	if len(first) > 110 {
+		first = first[:110]
+	}
+	return first
 }
 
 func c11ProgStats(p *c11GProg) {
@@ -1088,8 +1182,21 @@ func c11ReplayCC(args []string) (string, bool) {
 	if len(args) != 3 {
 		return "bad-op", true
 	}
-	bundle := string(unhxSafe(args[0]))
-	expect, gen := args[1], args[2]
+	c11ReplayBundle(string(unhxSafe(args[0])), args[1], args[2], nil)
+	return "run", true
+}
+
+func c11SeedArg() uint64 {
+	for i, a := range os.Args {
+		if a == "-seed" && i+1 < len(os.Args) {
+			v, _ := strconv.ParseUint(os.Args[i+1], 10, 64)
+			return v
+		}
+	}
+	return 1
+}
+
+func c11ReplayBundle(bundle, expect, gen string, probe *c11Probe) (string, bool) {
 	files, order := c11Unbundle(bundle)
 	if len(order) == 0 {
 		return "run", true
@@ -1119,6 +1226,9 @@ func c11ReplayCC(args []string) (string, bool) {
 		t = c11Target{lang: lang, kind: "none"}
 	}
 	j := &c11Job{tag: "r0", target: t, gen: gen, outDir: filepath.Join(root, "out", "r0"), bundle: bundle, expect: expect}
+	if probe != nil {
+		j.probes = []c11Probe{*probe}
+	}
 	var gm *c11GoMod
 	if t.kind == "go" && expect == "valid" {
 		gm, err = c11NewGoMod(root)
@@ -1173,5 +1283,6 @@ func c11Clip(s string, n int) string {
 
 func init() {
 	suites["c11"] = runC11
+	suites["c11names"] = runC11Names
 	lineOps["cc"] = c11ReplayCC
 }
